@@ -1,10 +1,21 @@
 """C20 - packet lifetime and hop budget on the wire honour the request.
 
-Decides: the lifetime quantiser as an exact piecewise table (extracted from the if-chain and evaluated on the finite
-breakpoint partition induced by the 4 x 64 representable values): never above the request, non-zero from 50 ms, the
-largest representable value, divisor = unit of the chosen base, no multiplier wrap; reader table = writer units;
-where the LT of an originated packet and of an indication comes from; RHL/MHL selection at every origination site;
-the RHL <= MHL guard in front of every receive handler.  Bit positions of LT/RHL/MHL: C02.layout.
+Decides: the lifetime quantiser as an exact piecewise table (lt-quantiser: set_value_in_millis interpreted - never run -
+on both ends of every cell of the finite breakpoint partition of 0 .. 7 000 000 ms induced by its thresholds, divisors
+and the 4 x 64 representable values): multiplier within 0..63, never above the request, non-zero from 50 ms, the
+largest representable value not above the request; the reader's unit table = the clause 9.6.4 units (lt-reader); where
+the LT of an originated packet comes from (lt-source: the requested lifetime in ms when one is given - `is None` and
+nothing else selecting - else itsGnDefaultPacketLifetime, always the default without a request; RHL field = the
+caller's value; seconds -> ms helper; the quantiser independent of its receiver; the lifetime argument at every
+origination site); what an indication reports (lt-indication: remaining lifetime read from the received Basic Header's
+LT, remaining hop limit = its RHL, seconds = floor(ms / 1000) on every representable lifetime, so never above the
+encoded one); RHL / MHL selection at every origination site (hops: 1/1 for single-hop packets and beacons, otherwise
+RHL = the requested limit when above 1 else itsGnDefaultHopLimit and MHL the same value; CommonHeader MHL = 1 exactly
+for TSB / SINGLE_HOP, else the request's; on the wire only the NH field of an initialised Basic Header is re-stamped -
+no later set_rhl / set_lt); that the Basic Header's set_* / with_* copies keep every other field (copy-faithful); the
+RHL <= MHL guard in front of every receive handler call of the dispatcher (rhl-le-mhl).
+Does not decide bit positions of LT / RHL / MHL (C02.layout), lifetimes above 7 000 000 ms, nor ageing of a lifetime
+while a packet waits in a buffer (timing).
 """
 from __future__ import annotations
 
